@@ -208,9 +208,9 @@ def run_tests(m, slot):
     return ok, tail
 
 
-def cmd_tests(par):
+def cmd_tests(par, files=None, every=1):
     ms = load()
-    todo = [m for m in ms if "tests" not in m]
+    todo = [m for m in ms if "tests" not in m and (not files or m["file"] in files)][::every]
     for s in range(par):
         fresh_copy(os.path.join(WORK, "w%d" % s))
     import queue
@@ -308,8 +308,8 @@ if __name__ == "__main__":
     c = sys.argv[1]
     if c == "gen":
         cmd_gen()
-    elif c == "tests":
-        cmd_tests(int(sys.argv[2]) if len(sys.argv) > 2 else 6)
+    elif c == "tests":        # tests [parallel] [every-nth] [files ...]
+        cmd_tests(int(sys.argv[2]) if len(sys.argv) > 2 else 6, sys.argv[4:] or None, int(sys.argv[3]) if len(sys.argv) > 3 else 1)
     elif c == "checks":
         cmd_checks(int(sys.argv[2]) if len(sys.argv) > 2 else 100, sys.argv[3:] or None)
     elif c == "report":
